@@ -480,7 +480,7 @@ func (m *modw) view() *View {
 		lib.Must(err)
 		var ds [][3]*big.Int
 		for _, d := range dels {
-			val, err := c.App.StakingKeeper.GetValidator(ctx, sdk.ValAddress(sdk.MustAccAddressFromBech32ValSafe(d.ValidatorAddress)))
+			val, err := c.App.StakingKeeper.GetValidator(ctx, mustVal(d.ValidatorAddress))
 			lib.Must(err)
 			tok := val.TokensFromShares(d.Shares).TruncateInt().BigInt()
 			ds = append(ds, [3]*big.Int{big.NewInt(int64(a)), big.NewInt(int64(m.w.valID[d.ValidatorAddress])), tok})
@@ -565,4 +565,10 @@ func (v *View) coq() string {
 	}
 	return fmt.Sprintf("(mkView %s %s %s %s %s %s %s %s %s %s %d %s %d)", lib.List(recs), lib.List(byb), lib.List(bye), lib.List(prop),
 		v.Power, lib.List(del), lib.List(ubd), lib.List(bo), lib.List(bd), coqObjs(v.Sets), v.SlashedSet, coqObjs(v.Batches), v.SlashedBat)
+}
+
+func mustVal(s string) sdk.ValAddress {
+	v, err := sdk.ValAddressFromBech32(s)
+	lib.Must(err)
+	return v
 }
